@@ -58,7 +58,7 @@ def run_c05(tier, seed):
         rng = random.Random("c05e2e/%s" % seed)
         st = lambda **kw: dict({"op": "", "c": "", "n": "", "reqs": [], "hex": "", "kind": "", "cls": "", "to": "", "count": 0, "src": "", "text": "", "cuts": []}, **kw)
         e2e = []
-        for k in range(12 if q else 200):
+        for k in range(24 if q else 300):
             steps = []
             for j in range(rng.randint(4, 9)):
                 sl = rng.choice(["A", "B", "C", "A2", "B2", "C2"])
@@ -70,6 +70,11 @@ def run_c05(tier, seed):
                     pool = rng.sample(["A", "B", "C", "A2", "B2", "C2"], rng.choice([2, 2, 3]))
                     nk = rng.choice([3, 4, 5])
                     slots = [rng.choice(pool) for _ in range(nk)]
+                    if rng.random() < 0.6:
+                        # ... with the repetition late in the request, behind keys of other slots (P Q X Y X, P X Y X Y)
+                        pq = rng.sample(["A", "B", "C", "A2", "B2", "C2"], 4)
+                        slots = rng.choice([[pq[0], pq[1], pq[2], pq[3], pq[2]], [pq[0], pq[2], pq[3], pq[2], pq[3]], [pq[0], pq[1], pq[2], pq[3], pq[2], pq[3]]])
+                        nk = len(slots)
                 rq = {"k": kind, "slots": slots, "args": [], "dups": [-1] * nk}
                 if k % 3 == 1 and rng.random() < 0.6:
                     # long keys: padding behind the token, or in front of the hash tag (a tag that starts after 64 .. 5 000 bytes)
